@@ -20,6 +20,9 @@ def main():
         if a.replay:
             mod.replay(rep, json.load(open(a.replay)))
         else:
+            # replay files of earlier runs describe other trees: start from an empty directory
+            import shutil
+            shutil.rmtree(os.path.join(common.VERIF, "replays", a.pid), ignore_errors=True)
             mod.run(rep, a.tier, seed)
     except Exception as e:
         traceback.print_exc()
